@@ -73,7 +73,7 @@ def general(draw, max_classes=4, max_nodes=7, max_props=4, max_stmts=30, bnodes=
         props = props + [RDF_TYPE]       # rdf:type must be an ordinary property then
 
     node_ix = st.integers(0, n_nodes - 1)
-    vals = [st.tuples(st.just("node"), node_ix)]
+    vals = [st.tuples(st.just("node"), node_ix), st.tuples(st.just("node"), node_ix)]
     if untyped:
         vals.append(st.tuples(st.just("uiri"), st.integers(0, 2)))
         if bnodes:
@@ -86,7 +86,9 @@ def general(draw, max_classes=4, max_nodes=7, max_props=4, max_stmts=30, bnodes=
     kinds = [type_stmt, prop_stmt, prop_stmt, prop_stmt]
     if class_typing:
         kinds.append(st.tuples(st.just("ct"), st.integers(0, n_classes - 1), st.integers(0, n_classes - 1)))
-    stmts = draw(st.lists(st.one_of(*kinds), min_size=min_stmts, max_size=max_stmts, unique=True))
+    lo = max(min_stmts, draw(st.sampled_from([1, 4, 8, 12, 16, 20])))
+    lo = min(lo, max_stmts)
+    stmts = draw(st.lists(st.one_of(*kinds), min_size=lo, max_size=max(max_stmts, lo), unique=True))
 
     triples = []
     seen = set()
